@@ -109,7 +109,7 @@ struct Sim {
     }
     void ExtendUntilActive(uint256 head)
     {
-        for (int i = 0; i < 8 && !OnActive(head); i++) { head = w.Mine(head, {}); n_blocks++; }
+        for (int i = 0; i < 16 && !OnActive(head); i++) { head = w.Mine(head, {}); n_blocks++; }
         if (!OnActive(head)) throw std::logic_error("competing branch did not become active");
     }
     CTransactionRef BuildSend(const RefView& v, bool& ok)
@@ -427,7 +427,7 @@ struct Sim {
 
 int main(int argc, char** argv)
 {
-    vx::init(argc, argv, "C44", "model_checking", 150, 1500);
+    vx::init(argc, argv, "C44", "model_checking", 110, 1300); // in-flight transitions finish after the deadline: leave slack below the hard limits (150 s / 25 min)
     vx::scratch_dir();
     auto& E = vx::ev();
     const bool big = vx::thorough();
